@@ -20,6 +20,19 @@ func runProp(t *testing.T, id string) {
 }
 
 func TestC01(t *testing.T) { runProp(t, "C01") }
+func TestC02(t *testing.T) { runProp(t, "C02") }
+func TestC03(t *testing.T) { runProp(t, "C03") }
+func TestC04(t *testing.T) { runProp(t, "C04") }
+func TestC05(t *testing.T) { runProp(t, "C05") }
+func TestC06(t *testing.T) { runProp(t, "C06") }
+func TestC07(t *testing.T) { runProp(t, "C07") }
+func TestC08(t *testing.T) { runProp(t, "C08") }
+func TestC09(t *testing.T) { runProp(t, "C09") }
+func TestC10(t *testing.T) { runProp(t, "C10") }
+func TestC14(t *testing.T) { runProp(t, "C14") }
+func TestC15(t *testing.T) { runProp(t, "C15") }
+func TestC16(t *testing.T) { runProp(t, "C16") }
+func TestC19(t *testing.T) { runProp(t, "C19") }
 
 // TestReplay re-executes the case in VERIF_REPLAY without rapid.
 func TestReplay(t *testing.T) {
